@@ -1147,11 +1147,14 @@ func (c *Client) startWriter() {
 }
 
 func (c *Client) destroyWriter() {
-	c.writer.Close()
-
+	// detach the writer before closing it, in order to
+	// prevent packets from being pushed to a closed writer.
 	c.writerMutex.Lock()
+	w := c.writer
 	c.writer = nil
 	c.writerMutex.Unlock()
+
+	w.Close()
 }
 
 func (c *Client) connOpen(u *base.URL) error {
